@@ -5,7 +5,7 @@
 use crate::common::*;
 use moc::deser::fits::{from_fits_ivoa, MocIdxType, MocQtyType, MocType, STMocType};
 use moc::idx::Idx;
-use moc::moc::{CellMOCIntoIterator, HasMaxDepth};
+use moc::moc::{CellMOCIntoIterator, CellMOCIterator, HasMaxDepth, RangeMOCIterator};
 use moc::moc2d::HasTwoMaxDepth;
 use moc::qty::MocQty;
 use std::io::{BufRead, Cursor};
@@ -68,6 +68,38 @@ pub fn impl_read_fits(bytes: &[u8]) -> String {
   }
 }
 
+/// from_fits_ivoa followed by the collect of whatever it returns (cells are turned into ranges, as the
+/// store loaders and the CLI do): Err(panic message) when the decoder does not return a value
+pub fn full_decode_panics(bytes: &[u8]) -> Option<String> {
+  let b = bytes.to_vec();
+  let r = catch(move || {
+    fn fin<T: Idx, Q: MocQty<T>, R: BufRead>(m: MocType<T, Q, R>) -> usize {
+      match m {
+        MocType::Ranges(it) => it.into_range_moc().len(),
+        MocType::Cells(c) => c.into_cell_moc_iter().ranges().into_range_moc().len(),
+      }
+    }
+    fn one<T: Idx, R: BufRead>(t: MocQtyType<T, R>) -> usize {
+      match t {
+        MocQtyType::Hpx(m) => fin(m),
+        MocQtyType::Time(m) => fin(m),
+        MocQtyType::Freq(m) => fin(m),
+        MocQtyType::TimeHpx(STMocType::V2(it)) => it.count(),
+        MocQtyType::TimeHpx(STMocType::PreV2(it)) => it.count(),
+        #[allow(unreachable_patterns)]
+        _ => 0,
+      }
+    }
+    match from_fits_ivoa(Cursor::new(b)) {
+      Ok(MocIdxType::U16(t)) => one(t),
+      Ok(MocIdxType::U32(t)) => one(t),
+      Ok(MocIdxType::U64(t)) => one(t),
+      Err(_) => 0,
+    }
+  });
+  r.err()
+}
+
 pub fn compare_reader_fits(rep: &mut Report, orc: &mut Oracle, bytes: &[u8], origin: &str, what: &str) -> bool {
   rep.evaluations += 1;
   let h: String = if bytes.is_empty() { "-".to_string() } else { bytes.iter().map(|x| format!("{:02x}", x)).collect() };
@@ -75,6 +107,10 @@ pub fn compare_reader_fits(rep: &mut Report, orc: &mut Oracle, bytes: &[u8], ori
   let got = impl_read_fits(bytes);
   let key = model.split_whitespace().take(2).collect::<Vec<_>>().join(" ");
   rep.count(&format!("fits-reader:{}:{}", origin, key));
+  if let Some(p) = full_decode_panics(bytes) {
+    rep.violation_c(&format!("from_fits_ivoa + collect does not return a value: {}", p), &format!("FITSR {} ({} bytes) # origin={} mutation={}", h, bytes.len(), origin, what), &p, &model.chars().take(200).collect::<String>(), "C12 (decoders are total)", "");
+    return false;
+  }
   if got != model {
     let shown: String = h.chars().take(400).collect();
     rep.corr_break(
@@ -123,7 +159,7 @@ pub fn header_program(rng: &mut Rng) -> (String, Vec<u8>) {
   let mut out = block(&p);
   // extension: fixed cards
   let nb = *rng.pick(&[2u64, 4, 8, 8, 8, 1, 16, 0]);
-  let nrows = *rng.pick(&[0u64, 2, 4, 6, 3, 1000]);
+  let nrows = *rng.pick(&[0u64, 1, 2, 4, 6, 3, 5, 1000]);
   let mut e = vec![
     card("XTENSION= 'BINTABLE'"), card("BITPIX  =                    8"), card("NAXIS   =                    2"),
     card(&format!("NAXIS1  = {:>20}", nb)), card(&format!("NAXIS2  = {:>20}", nrows)),
@@ -156,9 +192,9 @@ pub fn header_program(rng: &mut Rng) -> (String, Vec<u8>) {
     0 => vec!["MOCVERS = '2.0'", "MOCDIM  = 'SPACE'", "ORDERING= 'RANGE'", "COORDSYS= 'C'", "MOCORD_S= 3", "TFORM1  = '1K'"],
     1 => vec!["MOCVERS = '2.0'", "MOCDIM  = 'TIME'", "ORDERING= 'RANGE'", "TIMESYS = 'TCB'", "MOCORD_T= 10", "TFORM1  = '1J'"],
     2 => vec!["MOCVERS = '2.0'", "MOCDIM  = 'FREQUENCY'", "ORDERING= 'RANGE'", "MOCORD_F= 20", "TFORM1  = '1I'"],
-    3 => vec!["MOCVERS = '2.0'", "MOCDIM  = 'SPACE'", "ORDERING= 'NUNIQ'", "COORDSYS= 'C'", "MOCORD_S= 3", "TFORM1  = '1K'"],
+    3 => vec!["MOCVERS = '2.0'", "MOCDIM  = 'SPACE'", "ORDERING= 'NUNIQ'", "COORDSYS= 'C'", *rng.pick(&["MOCORD_S= 3", "MOCORD_S= 13", "MOCORD_S= 14", "MOCORD_S=                   29", "MOCORD_S= 5", "MOCORD_S= 6"]), *rng.pick(&["TFORM1  = '1K'", "TFORM1  = '1J'", "TFORM1  = '1I'"])],
     4 => vec!["MOCVERS = '2.0'", "MOCDIM  = 'TIME.SPACE'", "ORDERING= 'RANGE'", "MOCORD_S= 3", "MOCORD_T= 10", "TFORM1  = '1K'"],
-    5 => vec!["ORDERING= 'NUNIQ'", "MOCORDER= 4", "PIXTYPE = 'HEALPIX'", "TFORM1  = '1J'"],
+    5 => vec!["ORDERING= 'NUNIQ'", *rng.pick(&["MOCORDER= 4", "MOCORDER= 13", "MOCORDER= 14", "MOCORDER= 29", "MOCORDER= 6"]), "PIXTYPE = 'HEALPIX'", *rng.pick(&["TFORM1  = '1J'", "TFORM1  = '1I'", "TFORM1  = '1K'"])],
     6 => vec!["ORDERING= 'RANGE29'", "MOCORDER= 4", "TORDER  = 7", "TFORM1  = '1K'"],
     _ => vec![],
   };
@@ -188,9 +224,33 @@ pub fn header_program(rng: &mut Rng) -> (String, Vec<u8>) {
   if rng.below(30) != 0 { e.push(card("END")); } else { what.push("extension END missing"); }
   out.extend(block(&e));
   // data
-  let n_data = rng.below(60) as usize;
-  for i in 0..n_data {
-    out.push(if rng.below(3) == 0 { rng.next() as u8 } else { [0u8, 0, 0, 1, 4, 16, 128, 255][i % 8] });
+  let is_nuniq = core.contains(&"ORDERING= 'NUNIQ'");
+  if is_nuniq && rng.below(4) != 0 {
+    // NUNIQ rows at the boundaries of the uniq decoding for the column width: 0 (skipped), < 4 (rejected),
+    // first / last uniq of the depths around the maximum depth of the index type, top of the type
+    let nbw: usize = if core.contains(&"TFORM1  = '1I'") { 2 } else if core.contains(&"TFORM1  = '1J'") { 4 } else { 8 };
+    let maxd: u32 = match nbw { 2 => 5, 4 => 13, _ => 29 };
+    let mut vals: Vec<u64> = vec![0, 1, 3, 4, 5, 15, 16, 17];
+    for d in [maxd.saturating_sub(1), maxd, maxd + 1] {
+      let first = 4u128 << (2 * d);
+      for v in [first.saturating_sub(1), first, first + 1, first + (12u128 << (2 * d)) - 1, first + (12u128 << (2 * d))] {
+        if v < (1u128 << (8 * nbw)) {
+          vals.push(v as u64);
+        }
+      }
+    }
+    vals.push(((1u128 << (8 * nbw)) - 1) as u64);
+    let n = 1 + rng.below(6) as usize;
+    for _ in 0..n {
+      let v = *rng.pick(&vals);
+      out.extend_from_slice(&v.to_be_bytes()[8 - nbw..]);
+    }
+    what.push("NUNIQ boundary rows");
+  } else {
+    let n_data = rng.below(60) as usize;
+    for i in 0..n_data {
+      out.push(if rng.below(3) == 0 { rng.next() as u8 } else { [0u8, 0, 0, 1, 4, 16, 128, 255][i % 8] });
+    }
   }
   if rng.below(3) == 0 {
     let n = (out.len() + 2879) / 2880 * 2880;
